@@ -1,5 +1,6 @@
 //! Engine K checks: the real compio runtime, driver, fs and net crates on the simulated io_uring kernel.
 
+mod actors;
 mod bufpool;
 mod cancel;
 mod childproto;
@@ -38,6 +39,7 @@ fn main() {
     let _ = simkernel::end();
     let mut scenarios: Vec<Scenario> = Vec::new();
     scenarios.extend(smoke::scenarios());
+    scenarios.extend(actors::scenarios());
     scenarios.extend(bufpool::scenarios());
     scenarios.extend(cancel::scenarios());
     scenarios.extend(datagrams::scenarios());
